@@ -23,6 +23,43 @@ Theorem GenDeps_children_ids_valid : children_ids_valid gen_tables /\ children_i
 Proof. exact gen_children_ids_valid. Qed.
 Print Assumptions GenDeps_children_ids_valid.
 
+(* ---- termination of the enable family ----
+   For any tables whose requires graphs pass the acyclicity check and have at most Dmax features per class, and any
+   object graph with a height that decreases from parent to child, fuel above height(o)*(Dmax+1)+Dmax suffices:
+   enable (every flag combination, every state of that shape) returns, and so does restore_children_deps. *)
+Theorem C13_enable_terminates : forall (T : tables) (Dmax : nat),
+  forallb acyclic_check T = true -> forallb (fun t => length t <=? Dmax) T = true ->
+  forall (h : nat -> nat) (s0 : state), (forall o c, In c (o_children (get_obj s0 o)) -> h c < h o) ->
+  forall n o f dry top err s, same_shape s0 s -> h o * S Dmax + Dmax < n ->
+  exists r s', enable T n o f dry top err s = Some (r, s') /\ same_shape s0 s'.
+Proof. exact enable_terminates_tables. Qed.
+Print Assumptions C13_enable_terminates.
+
+(* On the real (regenerated) tables, both variants: fuel above height(o)*39+38 (at most 155 with the four levels
+   bias > variable > component > atom group). *)
+Theorem GenDeps_enable_terminates : forall T, T = gen_tables \/ T = gen_tables_lagged ->
+  forall (h : nat -> nat) (s0 : state), (forall o c, In c (o_children (get_obj s0 o)) -> h c < h o) ->
+  forall n o f dry top err s, same_shape s0 s -> h o * 39 + 38 < n ->
+  exists r s', enable T n o f dry top err s = Some (r, s') /\ same_shape s0 s'.
+Proof. exact gen_enable_terminates. Qed.
+Print Assumptions GenDeps_enable_terminates.
+
+Theorem GenDeps_restore_terminates : forall T, T = gen_tables \/ T = gen_tables_lagged ->
+  forall (h : nat -> nat) (s0 : state), (forall o c, In c (o_children (get_obj s0 o)) -> h c < h o) ->
+  forall n o s, same_shape s0 s -> h o * 39 <= n ->
+  exists s', restore_children_deps T n o s = Some s' /\ same_shape s0 s'.
+Proof. exact gen_restore_terminates. Qed.
+Print Assumptions GenDeps_restore_terminates.
+
+(* non-vacuity: a bias over a variable, heights 1 and 0 *)
+Example C13_example_heights :
+  let s0 := [w_cv [34; 35] [1]; w_bias [0]] in let h := fun o => match o with 1 => 1 | _ => 0 end in
+  forall o c, In c (o_children (get_obj s0 o)) -> h c < h o.
+Proof.
+  intros s0 h o c. destruct o as [|[|[|o]]]; cbn; intros H; try contradiction.
+  destruct H as [H|H]; [subst c; cbn; lia | contradiction].
+Qed.
+
 (* ---- general theorems: every table, every state, every primitive, every flag combination,
         successful or failed call, any fuel that suffices for the call to return ---- *)
 
